@@ -473,3 +473,118 @@ pub fn run_suggest(seed: u64, n: usize, out: &mut Out) {
         }
     }
 }
+
+/// C07: the corpus of FromMeta receivers x inputs whose list bodies are not meta syntax at some
+/// depth (missing commas, stray punctuation, `=` without value, literals as names)
+pub fn run_malformed(seed: u64, n: usize, out: &mut Out) {
+    let no_sim = std::env::args().any(|a| a == "--no-sim");
+    let src = include_str!("../corpus_fm.rs");
+    let decls = recv::declarations(src);
+    let recvs = corpus_fm::receivers();
+    for e in &recvs {
+        let info = (e.info)();
+        out.raw(&format!("decl {} FromMeta {}", info.name, ser::derive_input(&decls[info.name]).render()));
+        for (k, v) in (e.vals)() {
+            out.raw(&format!("oracle {}", tagged("val", vec![st(k), v]).render()));
+        }
+        for row in decl_oracle_rows(&decls[info.name]) {
+            out.raw(&format!("oracle {}", row.render()));
+        }
+    }
+    use crate::vals::Canon;
+    out.raw(&format!("oracle {}", tagged("val", vec![st("fn:fns :: dflt_u8"), crate::fns::dflt_u8().canon()]).render()));
+    out.raw(&format!("oracle {}", tagged("val", vec![st("fn:fns :: dflt_string"), crate::fns::dflt_string().canon()]).render()));
+    out.raw(&format!("oracle {}", tagged("val", vec![st("fn:fns :: dflt_i64"), crate::fns::dflt_i64().canon()]).render()));
+    let base = Rng::new(seed ^ 0xC07A);
+    let per = (n / recvs.len()).max(1);
+    let mut id = 0usize;
+    for (k, e) in recvs.iter().enumerate() {
+        let info = (e.info)();
+        let mut cands = BTreeSet::new();
+        collect_names(&decls[info.name], &decls, &mut BTreeSet::new(), &mut cands);
+        let mut te = e.ty.clone();
+        te.kinds = vec!["Path"];
+        for j in 0..per {
+            let mut r = base.fork((k * 100_003 + j) as u64);
+            let src = if info.is_enum || r.chance(1, 3) {
+                let pool: Vec<&&str> = info.valid.iter().chain(info.invalid.iter()).collect();
+                if pool.is_empty() {
+                    continue;
+                }
+                format!("x{}", r.pick(&pool))
+            } else {
+                let m = r.below(2);
+                let (items, _) = compose(&mut r, &info, m);
+                format!("x({})", items.join(", "))
+            };
+            let mutated = mangle(&mut r, &src);
+            let m = match parse_meta_pub(&mutated) {
+                Some(m) => m,
+                None => {
+                    out.stat("mangled_inputs_not_parseable_as_meta", 1);
+                    continue;
+                }
+            };
+            let (case, ans) = meta_case_with(&te, &m, "recv", if no_sim { vec![] } else { score_rows(&m, &cands) });
+            out.stat(if ans.starts_with("(ok") { "answers_ok" } else if ans.starts_with("(err") { "answers_err" } else { "answers_panic" }, 1);
+            out.case_id("recv", &format!("m-{}", id), &case, &ans);
+            id += 1;
+        }
+    }
+}
+
+/// 1..2 token-level mutations inside the parentheses of `src`
+fn mangle(r: &mut Rng, src: &str) -> String {
+    let mut s: Vec<char> = src.chars().collect();
+    for _ in 0..r.range(1, 2) {
+        // positions inside some parenthesis, outside string literals
+        let mut depth = 0usize;
+        let mut in_str = false;
+        let mut commas = vec![];
+        let mut opens = vec![];
+        let mut prev = ' ';
+        for (i, c) in s.iter().enumerate() {
+            if *c == '"' && prev != '\\' {
+                in_str = !in_str;
+            }
+            if !in_str {
+                match c {
+                    '(' => {
+                        depth += 1;
+                        opens.push((i, depth));
+                    }
+                    ')' => depth = depth.saturating_sub(1),
+                    ',' if depth >= 1 => commas.push((i, depth)),
+                    _ => {}
+                }
+            }
+            prev = *c;
+        }
+        // prefer the deeper positions: that is where generated code parses lazily
+        let deep_commas: Vec<usize> = commas.iter().filter(|(_, d)| *d >= 2).map(|(i, _)| *i).collect();
+        let deep_opens: Vec<usize> = opens.iter().filter(|(_, d)| *d >= 2).map(|(i, _)| *i).collect();
+        match r.below(4) {
+            0 | 1 => {
+                let pool = if !deep_commas.is_empty() && r.chance(3, 4) { deep_commas } else { commas.iter().map(|(i, _)| *i).collect() };
+                if pool.is_empty() {
+                    continue;
+                }
+                let i = *r.pick(&pool);
+                s[i] = ' ';
+            }
+            _ => {
+                let pool = if !deep_opens.is_empty() && r.chance(3, 4) { deep_opens } else { opens.iter().map(|(i, _)| *i).collect() };
+                if pool.is_empty() {
+                    continue;
+                }
+                let i = *r.pick(&pool);
+                let junk: Vec<char> = r.pick(&["= =>", "=", ";", "#", "a b", "5 = 5", ", ,", "= 3", "!", "a = "]).chars().collect();
+                for (k, c) in junk.iter().enumerate() {
+                    s.insert(i + 1 + k, *c);
+                }
+                s.insert(i + 1 + junk.len(), ' ');
+            }
+        }
+    }
+    s.into_iter().collect()
+}
